@@ -34,7 +34,7 @@ RULE = (
 )
 ASSUMPTIONS = ["non-recursive documents only (C20 covers refusal of recursive ones); documents are served from memory through json_ref_dict's loader"]
 
-WITNESSES = [{"d": {"tags": [{"name": "x"}], "m": [[{"y": 0}]]}}, {"e2": [{"x": 0}]}, {"e2": {"l": [{"q": [{"r": 1}]}]}, "d": {"tags": [{"name": "x"}], "m": [[{"y": 0}]]}}, {"d": {"tags": [{"name": "y"}], "m": [[{"y": 0}]]}}, {"\ufb01le": "a"}, {"file": "a"}, {"\ufb01le": "a", "\uff2b": 1, "\u00b5": None}, {"k": 1}, {"k": True}, {"one": {"k": 1}, "two": {"k": True}}, {"one": {"k": True}}, {"two": {"k": 1}}, {}, {"a": 1, "b": "s"}, {"a": "x"}, {"class": "z", "a b": 1}, {"class": "z", "a b": 1, "a_b": None}, {"n": 1.5, "f": True}, {"a": 1}, {"x1": 1, "zz": "s"}, {"x1": "no"}, {"a": 1, "b": 2}, {"k": True, "c": {"a": [1, True]}}, {"k": "1"}, {"u": "s", "v": ["a"]}, {"u": 0}, {"l": [1], "m": [1, "a"]}, {"t": [1, "x"]}, {"a": 1, "c": 1}, {"a": 1, "c": 1, "d": 2}, 5, "s", None, [1]]
+WITNESSES = [{"examples": ["x"], "$comment": "c", "$schema": 1, "title": "t", "description": None, "type": "t", "definitions": {"examples": 2}, "$id": True}, {"examples": ["x"]}, {"examples": [1]}, {"examples": ["x"], "$schema": "no"}, {"examples": ["x"], "definitions": {"examples": "no"}}, {"$comment": "c"}, {"d": {"tags": [{"name": "x"}], "m": [[{"y": 0}]]}}, {"e2": [{"x": 0}]}, {"e2": {"l": [{"q": [{"r": 1}]}]}, "d": {"tags": [{"name": "x"}], "m": [[{"y": 0}]]}}, {"d": {"tags": [{"name": "y"}], "m": [[{"y": 0}]]}}, {"\ufb01le": "a"}, {"file": "a"}, {"\ufb01le": "a", "\uff2b": 1, "\u00b5": None}, {"k": 1}, {"k": True}, {"one": {"k": 1}, "two": {"k": True}}, {"one": {"k": True}}, {"two": {"k": 1}}, {}, {"a": 1, "b": "s"}, {"a": "x"}, {"class": "z", "a b": 1}, {"class": "z", "a b": 1, "a_b": None}, {"n": 1.5, "f": True}, {"a": 1}, {"x1": 1, "zz": "s"}, {"x1": "no"}, {"a": 1, "b": 2}, {"k": True, "c": {"a": [1, True]}}, {"k": "1"}, {"u": "s", "v": ["a"]}, {"u": 0}, {"l": [1], "m": [1, "a"]}, {"t": [1, "x"]}, {"a": 1, "c": 1}, {"a": 1, "c": 1, "d": 2}, 5, "s", None, [1]]
 
 
 def values_for(doc):
